@@ -133,6 +133,7 @@ pub struct Merged {
     pub stats: BTreeMap<String, u64>,
     pub samples: Vec<Value>,
     pub run_digests: BTreeMap<u64, u64>,
+    pub interleavings: BTreeSet<u64>,
 }
 
 /// Miri leg (C17): plain std threads and plain f64 sharing one sampler (or using
@@ -309,6 +310,7 @@ pub fn merge(outs: Vec<WorkerOut>) -> Merged {
         stats: BTreeMap::new(),
         samples: vec![],
         run_digests: BTreeMap::new(),
+        interleavings: BTreeSet::new(),
     };
     for o in outs {
         for (i, d) in o.run_digests.iter() {
@@ -317,6 +319,7 @@ pub fn merge(outs: Vec<WorkerOut>) -> Merged {
         m.runs += o.runs;
         m.skipped += o.skipped;
         m.found_total += o.found_total;
+        m.interleavings.extend(o.interleavings.iter().copied());
         for (k, v) in o.found_per_class {
             *m.found_per_class.entry(k).or_insert(0) += v;
         }
@@ -506,6 +509,8 @@ pub fn check(p: &dyn Property, thorough: bool, meta: Meta) -> i32 {
             "seeds_per_hour": if wall > 0.0 { (m.runs as f64 / wall * 3600.0) as u64 } else { 0 },
             "simulated_time": "not applicable: momtrop has no clock or timer; progress is counted in seam events",
             "seam_events": m.stats.get("seam_events").copied().unwrap_or(0),
+            "distinct_interleavings": m.interleavings.len(),
+            "distinct_interleavings_measure": "distinct digests of the context-switch sequence (caller, own seam-event index, successor) of runs with more than one context switch",
             "fault_kinds_fired": fault_kinds,
             "rare_condition_probes": probes,
             "counters": m.stats,
